@@ -372,7 +372,13 @@ func runC09(p *core.Program, r *core.Report) {
 		r.Check(len(bad) == 0, "R9.2", key, p.Pos(ml.rs.Pos()), "body is order-insensitive: stores keyed by the entry's key, body-local definitions, error returns only",
 			"the result of this loop depends on the map's iteration order: "+strings.Join(bad, "; ")+" — compiling the same source twice can yield different programs")
 	}
+	// R9.5: a run modifies nothing that is not fresh in the run or per-run machine state —
+	// in particular not the program, the environment value or the constants (= C08 R8.1)
+	runSideWriteRule(p, r, ef, reach, borrowedFields(ef, reach), "R9.5", "running the program modifies the program, the environment value or another object that outlives the run: a second run on an equal environment sees different inputs")
+	// R9.6: no process-wide mutable state (= C08 R8.6): what a call computes cannot depend on earlier calls
+	globalEscapeRule(p, r, ef, "R9.6", "compiling the same source with the same options can yield a different program depending on what the process did before")
 	_ = ssa.Function{}
+	r.Floor("R9.5", 30)
 	r.Floor("R9.1", 200)
 	r.Floor("R9.2", 4)
 	r.Floor("R9.3", 30)
@@ -385,6 +391,8 @@ func c09Controls() []core.Mutant {
 		{Name: "first operator of the map wins", File: "conf/config.go", Old: "\tfor op, fns := range c.Operators {\n", New: "\tfor op, fns := range c.Operators {\n\t\tc.DefaultType = nil\n\t\tif len(fns) == 0 {\n\t\t\tbreak\n\t\t}\n", Rule: "R9.2", Construct: "conf.(Config).Check"},
 		{Name: "time-dependent constant folding", File: "optimizer/fold.go", Old: "func (fold *fold) Exit(node *Node) {\n", New: "func (fold *fold) Exit(node *Node) {\n\tif time.Now().Unix() == 0 {\n\t\treturn\n\t}\n", Edits: [][2]string{{"import (\n", "import (\n\t\"time\"\n"}}, Rule: "R9.1", Construct: "optimizer.(*fold).Exit"},
 		{Name: "fetch sets a field of the environment", File: "vm/runtime.go", Old: "func fetch(from, i interface{}, nilsafe bool) interface{} {\n", New: "func fetch(from, i interface{}, nilsafe bool) interface{} {\n\tif rv := reflect.ValueOf(from); rv.Kind() == reflect.Ptr && rv.Elem().Kind() == reflect.Int {\n\t\trv.Elem().SetInt(0)\n\t}\n", Rule: "R9.1", Construct: "vm.fetch"},
+		{Name: "membership test sorts the environment's slice", File: "vm/runtime.go", Old: "func in(needle interface{}, array interface{}) bool {\n", New: "func in(needle interface{}, array interface{}) bool {\n\tif xs, ok := array.([]int); ok {\n\t\tsort.Ints(xs)\n\t}\n", Edits: [][2]string{{"import (\n", "import (\n\t\"sort\"\n"}}, Rule: "R9.5", Construct: "vm.in"},
+		{Name: "types table cached per process", File: "conf/types_table.go", Old: "func CreateTypesTable(i interface{}) TypesTable {\n", New: "var tableCache sync.Map\n\nfunc CreateTypesTable(i interface{}) TypesTable {\n\tif c, ok := tableCache.Load(reflect.TypeOf(i)); ok {\n\t\tif tt, ok := c.(TypesTable); ok {\n\t\t\treturn tt\n\t\t}\n\t}\n", Edits: [][2]string{{"import \"reflect\"\n", "import (\n\t\"reflect\"\n\t\"sync\"\n)\n"}}, Rule: "R9.6", Construct: "conf.CreateTypesTable"},
 		{Name: "refactor: Check loops swapped", File: "conf/config.go", Old: "\t// Check that all ConstExprFns are functions.\n\tfor name, fn := range c.ConstExprFns {\n\t\tif fn.Kind() != reflect.Func {\n\t\t\treturn fmt.Errorf(\"const expression %q must be a function\", name)\n\t\t}\n\t}\n", New: "\tfor name, fn := range c.ConstExprFns {\n\t\tkind := fn.Kind()\n\t\tif kind != reflect.Func {\n\t\t\treturn fmt.Errorf(\"const expression %q must be a function\", name)\n\t\t}\n\t}\n", Silent: true},
 	}
 }
